@@ -90,9 +90,14 @@ func (l *schedLog) endCall(idx int, err error) {
 }
 
 // newSched creates a scheduler whose decisions are explorer choices.
-func newSched(x *explore.Ctx) (*vrt.Sched, *schedLog) {
+func newSched(x *explore.Ctx) (*vrt.Sched, *schedLog) { return newSchedOpt(x, true) }
+
+// newSchedOpt: with freeForced=false a forced switch (the running thread blocked or ended)
+// takes the lowest enabled thread by default and any other choice costs one deviation; this
+// keeps harnesses with many threads tractable (plain CHESS treats forced switches as free).
+func newSchedOpt(x *explore.Ctx, freeForced bool) (*vrt.Sched, *schedLog) {
 	s := vrt.New(func(n int, label string, free bool) int {
-		if free {
+		if free && (freeForced || label == "select-case") {
 			return x.Pick(n, label)
 		}
 		return x.Choose(n, label)
